@@ -1,17 +1,21 @@
 //! C13 — peer messages round-trip through the wire format and decoding is total.
 //!
-//! Parts
-//!  * `layout`       canonical bytes instantiated from an independent BOLT layout template must decode,
-//!                   re-encode to exactly the template bytes, report the right `serialized_length`,
-//!                   dispatch under the BOLT type number, and never consume past the declared length.
+//! Parts (cheapest first)
+//!  * `named-fields` 48 message types built field by field in BOLT order next to their expected BOLT
+//!                   encoding: encode(m) == expected and decode(expected) == m (ties every *named* struct
+//!                   field to its wire position).
+//!  * `layout`       canonical bytes instantiated from an independent BOLT layout template (all 50 types)
+//!                   must decode, re-encode to exactly the template bytes, report the right
+//!                   `serialized_length`, dispatch under the BOLT type number, and never consume past the
+//!                   declared length.
 //!  * `destructive`  every truncation, unknown odd / even TLV, non-minimal BigSize, mis-ordered and
-//!                   duplicated records, wrong-size known records, invalid points / signatures /
-//!                   booleans / encodings of each valid encoding, with the expected verdict derived
-//!                   from the template (never from the decoder).
-//!  * `totality`     arbitrary bytes, byte edits, splices and cross-type feeding: no panic, and
-//!                   whatever decodes is stable under re-encoding; slice reader, length-limited reader
-//!                   and `wire::read` agree.
-//!  * `constructive` structs built directly -> encode -> decode equality.
+//!                   duplicated records, wrong-size known records, inner length descriptors off by one,
+//!                   invalid points / signatures / booleans / encodings of each valid encoding, with the
+//!                   expected verdict derived from the template (never from the decoder).
+//!  * `totality`     arbitrary bytes, byte edits, splices, garbage tails and cross-type feeding: no panic,
+//!                   and whatever decodes is stable under re-encoding; slice reader, length-limited
+//!                   reader and `wire::read` agree.
+//!  * `constructive` structs built directly from generated values -> encode -> decode equality.
 //!  * `wire-ids`     all 65536 type numbers: unassigned ones come back as Unknown(id) whatever the
 //!                   payload, assigned ones never do.
 
@@ -502,6 +506,35 @@ fn destructive_oracle(c: &DCase, ctx: &mut Ctx) -> CaseResult {
 		evals += 1;
 		ctx.label("range/encoding-type");
 	}
+	// --- inner length descriptors that do not describe the data that follows (DecodeError::BadLengthDescriptor /
+	// ShortRead / InvalidValue are all fine, acceptance is not): the decoder must not borrow bytes from, or
+	// leave bytes to, the neighbouring field.
+	if !b.inner_lens.is_empty() {
+		let (o, kind) = b.inner_lens[r.below(b.inner_lens.len() as u64) as usize];
+		let cur = u16::from_be_bytes([bytes[o], bytes[o + 1]]) as i64;
+		let deltas: Vec<i64> = match kind {
+			LenKind::AddrsKnownOnly => vec![-1],
+			LenKind::PrevTx | LenKind::Witness => vec![-1, 1],
+			LenKind::Scids => vec![1 + r.below(7) as i64, -(1 + r.below(7) as i64)],
+			LenKind::LastVar16 => {
+				if b.recs.is_empty() {
+					vec![-1, 1]
+				} else {
+					vec![]
+				}
+			},
+		};
+		for d in deltas {
+			let v = cur + d;
+			if v < 0 || v > 0xffff {
+				continue;
+			}
+			let inp = splice(bytes, o, 2, &(v as u16).to_be_bytes());
+			must_err(k, spec, &inp, "bad-length-descriptor", &format!("{:?} length at offset {} changed from {} to {} with unchanged content", kind, o, cur, v))?;
+			evals += 1;
+			ctx.label("len/inner-length-mismatch");
+		}
+	}
 	ctx.sub_evaluations(evals);
 	ctx.nontrivial_if(evals > 0);
 	ctx.summary(serde_json::json!({ "message": name, "len": n, "mutations": evals, "tlv_records": b.recs.iter().map(|x| x.typ).collect::<Vec<_>>() }));
@@ -687,10 +720,21 @@ fn main() {
 
 	c.part(
 		PartSpec {
+			name: "named-fields",
+			rule: "48 of the 50 message types (all but update_fail_htlc / update_fail_malformed_htlc, whose fields are crate-private) filled field by field in BOLT wire order while the expected BOLT encoding is recorded alongside; encode(m) must equal it and decode(it) must equal m, so every *named* field is tied to its wire position (catches a consistent encoder+decoder swap of same-sized fields). Non-trivial: an optional field is set or a variable-length field has length 0/1.",
+			quick_cases: 250_000,
+			thorough_cases: 12_000_000,
+			max_shrink: 2000,
+		},
+		(any::<u16>(), any::<u64>(), any::<u8>(), any::<[u16; 3]>()).prop_map(|(which, seed, opt, lens)| named::NCase { which, seed, opt, lens }),
+		named::oracle,
+	);
+	c.part(
+		PartSpec {
 			name: "layout",
 			rule: "message type uniform over the 50-entry BOLT table; each known optional TLV record present/absent independently (mask); each variable-length item in {0,1,small,medium,max-fitting the 65533-byte frame}; canonical bytes produced by the template, not by LDK. Non-trivial: >=1 optional record present or a 0/1/max-fitting length.",
 			quick_cases: 400_000,
-			thorough_cases: 10_000_000,
+			thorough_cases: 20_000_000,
 			max_shrink: 2000,
 		},
 		inst_strat(),
@@ -699,9 +743,9 @@ fn main() {
 	c.part(
 		PartSpec {
 			name: "destructive",
-			rule: "for a template-generated valid encoding: every truncation (sampled at field/record boundaries +-1 and 48 random cuts above 1600 bytes), unknown odd/even record at its sorted position, duplicate / swapped / descending records, non-minimal BigSize type and length (unknown and known records), known fixed-size record one byte short/long, one invalid point / signature / boolean / scid-encoding; expected verdicts come from the template. Each sub-evaluation differs from the valid encoding in exactly one structural element.",
+			rule: "for a template-generated valid encoding: every truncation (sampled at field/record boundaries +-1 and 48 random cuts above 1600 bytes), unknown odd/even record at its sorted position, duplicate / swapped / descending records, non-minimal BigSize type and length (unknown and known records), known fixed-size record one byte short/long, an inner length descriptor (addrlen, prevtx_len, witness length, encoded_short_ids length, trailing u16-prefixed field) off by one, one invalid point / signature / boolean / scid-encoding; expected verdicts come from the template. Each sub-evaluation differs from the valid encoding in exactly one structural element.",
 			quick_cases: 60_000,
-			thorough_cases: 1_500_000,
+			thorough_cases: 3_000_000,
 			max_shrink: 2000,
 		},
 		(small_inst_or_any(), any::<u64>()).prop_map(|(inst, mseed)| DCase { inst, mseed }),
@@ -712,7 +756,7 @@ fn main() {
 			name: "totality",
 			rule: "arbitrary bytes (uniform and TLV/length-biased alphabets), 1-3 byte xor edits, short splices and cross-type feeding of template encodings, each offered to one typed decoder, the length-limited reader and wire::read. Non-trivial: the outcome is not ShortRead (decoded, or rejected on content).",
 			quick_cases: 500_000,
-			thorough_cases: 12_000_000,
+			thorough_cases: 25_000_000,
 			max_shrink: 4000,
 		},
 		tcase_strat(),
@@ -723,22 +767,11 @@ fn main() {
 			name: "constructive",
 			rule: "structs built directly for 19 message types (init, update_add_htlc, channel_reestablish, node/channel announcements, channel_update, open_channel2, accept_channel, commitment_signed, tx_signatures, revoke_and_ack with blinded paths, closing_signed, error/warning, ping/pong, scid queries, start_batch) with every Option independently set and all SocketAddress variants. Non-trivial: an optional field is set or a vector has boundary length.",
 			quick_cases: 150_000,
-			thorough_cases: 4_000_000,
+			thorough_cases: 8_000_000,
 			max_shrink: 4000,
 		},
 		construct::strat(),
 		construct::oracle,
-	);
-	c.part(
-		PartSpec {
-			name: "named-fields",
-			rule: "47 constructible message types filled field by field in BOLT wire order while the expected BOLT encoding is recorded alongside; encode(m) must equal it and decode(it) must equal m, so every *named* field is tied to its wire position (catches a consistent encoder+decoder swap of same-sized fields). Non-trivial: an optional field is set or a variable-length field has length 0/1.",
-			quick_cases: 250_000,
-			thorough_cases: 6_000_000,
-			max_shrink: 2000,
-		},
-		(any::<u16>(), any::<u64>(), any::<u8>(), any::<[u16; 3]>()).prop_map(|(which, seed, opt, lens)| named::NCase { which, seed, opt, lens }),
-		named::oracle,
 	);
 	let wcases: Vec<WCase> = (0..256u32).map(|i| WCase { base: (i * 256) as u16, seed: c.args.seed.wrapping_mul(0x9E3779B97F4A7C15) ^ (i as u64) }).collect();
 	c.enumerate(
